@@ -75,6 +75,19 @@ def weighA (A : Arith) (ts : List Target) : List Target :=
 def weighW (A : Arith) (fixed : List Rat) : List Rat :=
   (weighA A (fixed.map (fun f => ({ service := [], tags := [], opts := [], url := [], fixedWeight := f } : Target)))).map (·.weight)
 
+/-- `n := int(float64(maxSlots) * t.Weight); if n == 0 && t.Weight > 0 { n = 1 }` in the arithmetic `A` (the
+product is rounded before the truncation) -/
+def slotCountA (A : Arith) (w : Rat) : Int :=
+  let n := truncZ (A.rnd ((maxSlots : Rat) * w))
+  if n = 0 ∧ 0 < w then 1 else n
+
+/-- `r.wTargets` after `weighTargets` in the arithmetic `A`, from the targets as stored (requested weights),
+for the placement order `pl`: bypass without fixed weights, else the fill on the slot counts of the weights
+computed in `A`. -/
+def ringAsCoded (A : Arith) (ts : List Target) (pl : List (Int × Nat)) : Outcome Ring :=
+  if nFixed ts = 0 then .ok ((List.range ts.length).map some)
+  else fillRing ((weighA A ts).map (fun t => slotCountA A t.weight)) pl
+
 /-- `w := weight / float64(n)` of `setWeight` -/
 def spreadW (A : Arith) (w : Rat) (k : Nat) : Rat := A.rnd (w / (k : Rat))
 
